@@ -54,6 +54,8 @@ T1: Dict[str, dict] = {
 DECLARED: Dict[str, List[str]] = {
     # "@raises Exception: If something went wrong. Callers should generally catch Exception" - wraps docutils
     'pydoctor.epydoc.markup.ParsedDocstring.to_stan': ['Exception'],
+    # "if these converter functions raise an exception, the whole type docstring will be rendered as plaintext" (_types.py)
+    'pydoctor.epydoc.markup._types.ParsedTypeDocstring.to_stan': ['Exception'],
     # html2stan re-raises the SAX error of twisted's XMLString on ill-formed markup
     'pydoctor.stanutils.html2stan': ['xml.sax.SAXParseException'],
     # get_parser_by_name imports `pydoctor.epydoc.markup.<name>`; the name comes from __docformat__
